@@ -26,6 +26,25 @@ impl Record {
         let bam_flags = record.flags()?;
         let mut cram_flags = Flags::QUALITY_SCORES_ARE_STORED_AS_ARRAY;
 
+        let reference_sequence_id = record.reference_sequence_id(header).transpose()?;
+        let alignment_start = record.alignment_start().transpose()?;
+
+        let cigar = record.cigar();
+
+        // A record that is not flagged as unmapped is written as a mapped read, whose bases are in
+        // its features. Without a reference sequence, an alignment start, or a CIGAR, there is
+        // nothing to align the read to.
+        let is_aligned =
+            reference_sequence_id.is_some() && alignment_start.is_some() && !cigar.is_empty();
+
+        // The sequence of a mapped read can be missing (`*`). Its length is that of its alignment.
+        let read_length = if record.sequence().is_empty() && !bam_flags.is_unmapped() && is_aligned
+        {
+            cigar.read_length()?
+        } else {
+            record.sequence().len()
+        };
+
         let sequence = if record.sequence().is_empty() {
             cram_flags.insert(Flags::SEQUENCE_IS_MISSING);
             Sequence::default()
@@ -37,7 +56,7 @@ impl Record {
             // § 10.6 "Mapped reads" (2024-09-04): missing quality scores are stored as 0xff for
             // every base; the reader consumes `read_length` scores per record.
             const MISSING: u8 = 0xff;
-            QualityScores::from(vec![MISSING; record.sequence().len()])
+            QualityScores::from(vec![MISSING; read_length])
         } else {
             if bam_flags.is_unmapped() {
                 cram_flags.insert(Flags::QUALITY_SCORES_ARE_STORED_AS_ARRAY);
@@ -47,27 +66,15 @@ impl Record {
         };
 
         // The reader consumes `read_length` scores per record.
-        if quality_scores.len() != record.sequence().len() {
+        if quality_scores.len() != read_length {
             return Err(io::Error::new(
                 io::ErrorKind::InvalidInput,
                 format!(
-                    "sequence-quality scores length mismatch: expected {}, got {}",
-                    record.sequence().len(),
+                    "sequence-quality scores length mismatch: expected {read_length}, got {}",
                     quality_scores.len()
                 ),
             ));
         }
-
-        let reference_sequence_id = record.reference_sequence_id(header).transpose()?;
-        let alignment_start = record.alignment_start().transpose()?;
-
-        let cigar = record.cigar();
-
-        // A record that is not flagged as unmapped is written as a mapped read, whose bases are in
-        // its features. Without a reference sequence, an alignment start, or a CIGAR, there is
-        // nothing to align the read to.
-        let is_aligned =
-            reference_sequence_id.is_some() && alignment_start.is_some() && !cigar.is_empty();
 
         let features = if !bam_flags.is_unmapped() && !is_aligned {
             Some(sequence_to_features(&sequence))
@@ -111,7 +118,7 @@ impl Record {
             bam_flags,
             cram_flags,
             reference_sequence_id,
-            read_length: record.sequence().len(),
+            read_length,
             alignment_start,
             read_group_id,
             name: record.name().map(|s| s.into()),
@@ -146,6 +153,8 @@ fn cigar_to_features(
 ) -> io::Result<Vec<Feature>> {
     use noodles_sam::alignment::record::cigar::op::Kind;
 
+    const UNKNOWN_BASE: u8 = b'N';
+
     let mut features = Vec::new();
 
     let mut reference_position = alignment_start;
@@ -155,6 +164,18 @@ fn cigar_to_features(
         let op = result?;
 
         match op.kind() {
+            // The bases of a read whose sequence is missing are unknown: there is nothing to compare
+            // to the reference sequence, and inserted and soft clipped bases only have a length.
+            Kind::Match | Kind::SequenceMatch | Kind::SequenceMismatch
+                if flags.sequence_is_missing() => {}
+            Kind::Insertion if flags.sequence_is_missing() => features.push(Feature::Insertion {
+                position: read_position,
+                bases: vec![UNKNOWN_BASE; op.len()],
+            }),
+            Kind::SoftClip if flags.sequence_is_missing() => features.push(Feature::SoftClip {
+                position: read_position,
+                bases: vec![UNKNOWN_BASE; op.len()],
+            }),
             Kind::Match | Kind::SequenceMatch | Kind::SequenceMismatch => {
                 if op.len() == 1 {
                     let raw_reference_base =
@@ -1150,5 +1171,46 @@ mod tests {
             ),
             Err(e) if e.kind() == io::ErrorKind::InvalidInput
         ));
+    }
+
+    #[test]
+    fn test_cigar_to_features_with_a_missing_sequence() -> Result<(), Box<dyn std::error::Error>> {
+        let reference_sequence = fasta::record::Sequence::from(b"ACGT".to_vec());
+
+        let cigar: Cigar = [
+            Op::new(Kind::SoftClip, 2),
+            Op::new(Kind::Match, 1),
+            Op::new(Kind::Insertion, 1),
+            Op::new(Kind::Match, 2),
+        ]
+        .into_iter()
+        .collect();
+
+        let flags = Flags::QUALITY_SCORES_ARE_STORED_AS_ARRAY | Flags::SEQUENCE_IS_MISSING;
+        let quality_scores = [0xff; 6].into_iter().collect();
+
+        let actual = cigar_to_features(
+            &cigar,
+            &reference_sequence,
+            flags,
+            Position::MIN,
+            &Sequence::default(),
+            &quality_scores,
+        )?;
+
+        let expected = vec![
+            Feature::SoftClip {
+                position: Position::try_from(1)?,
+                bases: vec![b'N', b'N'],
+            },
+            Feature::Insertion {
+                position: Position::try_from(4)?,
+                bases: vec![b'N'],
+            },
+        ];
+
+        assert_eq!(actual, expected);
+
+        Ok(())
     }
 }
